@@ -19,26 +19,28 @@ TraceInit ==
   /\ l = 1 /\ words = {}
   /\ pop = <<>> /\ old = <<>> /\ slot = <<>> /\ phase = "idle"
   /\ result = [ok |-> TRUE, err |-> 0] /\ nextId = 0
-  /\ rngpos = [w \in Workers |-> 0] /\ mode = "par" /\ gen = 0
+  /\ rngpos = [w \in Workers |-> 0] /\ mode = "par" /\ kind = "seq" /\ key = <<>> /\ gen = 0
 
 Reset == LET e == Log[l] IN
   /\ e.ev = "reset"
   /\ pop' = e.pop /\ old' = e.pop /\ slot' = [i \in 1..Len(e.pop) |-> Todo]
   /\ phase' = "idle" /\ result' = [ok |-> TRUE, err |-> 0] /\ nextId' = 0
-  /\ rngpos' = [w \in Workers |-> 0] /\ mode' = e.mode /\ gen' = 0
+  /\ rngpos' = [w \in Workers |-> 0] /\ mode' = e.mode /\ kind' = e.kind /\ gen' = 0
+  /\ key' = [i \in ToSet(e.pop) |-> i]
   /\ words' = {}
 
 BeginEv == Log[l].ev = "begin" /\ Begin /\ UNCHANGED words
 
 StartEv == LET e == Log[l] IN
   /\ e.ev = "start"
+  /\ e.call \in Slots                     \* never more calls than the population has members
   /\ Claim(e.thread, e.call)
   /\ e.seen = pop /\ e.same_object       \* the previous, unmodified population itself
   /\ UNCHANGED words
 
 EndEv == LET e == Log[l] IN
-  /\ e.ev = "end"
-  /\ IF e.ok THEN /\ Finish(e.call, e.child)
+  /\ e.ev = "end" /\ e.call \in Slots
+  /\ IF e.ok THEN /\ Finish(e.call, e.child, e.key)
                   /\ e.word \notin words          \* its own live randomness
                   /\ words' = words \cup {e.word}
              ELSE Fail(e.call) /\ UNCHANGED words
